@@ -166,7 +166,109 @@ def filter_part(ctx, n, component="orphan"):
         ctx.sample({"case": to_case(*scen[0]), "python": py[0]})
 
 
+def run_concurrent(ctx, parent, threads, seed, schedule=None, component="orphan.concurrent"):
+    from harness.sim import Sim, patched
+    ids = sorted(i for i in parent if i < 100)
+    ctxs = sorted({p for p in parent.values() if p is not None})
+    closer = threads[0][0][0]
+
+    def anc(i):
+        out = []
+        while parent.get(i) is not None:
+            i = parent[i]
+            out.append(i)
+        return out
+    under = [i for i in parent if closer in anc(i)]
+    sim = Sim(schedule=schedule, seed=seed, policy="pct" if seed % 3 == 0 and not schedule else "random", max_points=20000, wall_limit=20)
+    order, accepted = [], []
+    with patched(sim):
+        from aws_durable_execution_sdk_python.exceptions import OrphanedChildException
+        from aws_durable_execution_sdk_python.lambda_service import OperationAction, OperationType, OperationUpdate
+        from aws_durable_execution_sdk_python.state import ExecutionState
+        st = ExecutionState("arn", "tok", {}, service_client=None)
+
+        def worker(seq):
+            def f():
+                for i, a in seq:
+                    u = OperationUpdate(operation_id=sid(i), operation_type=OperationType.CONTEXT if i in ctxs else OperationType.STEP,
+                                        action=OperationAction[a], parent_id=None if parent[i] is None else sid(parent[i]))
+                    try:
+                        st.create_checkpoint(u, is_sync=False)
+                        accepted.append((i, a))
+                    except OrphanedChildException:
+                        pass
+            return f
+
+        def main():
+            worker([(i, "START") for i in ids])()       # everything that exists already was announced, parents first
+            del accepted[:]
+            while st._checkpoint_queue._q:              # noqa: SLF001  (those records are on their way already)
+                st._checkpoint_queue._q.popleft()       # noqa: SLF001
+            ths = [sim.Thread(target=worker(seq), name=f"w{k}") for k, seq in enumerate(threads)]
+            for t in ths:
+                t.start()
+            for t in ths:
+                t.join()
+        sim.stop_when_main_done = False
+        sim.run(main)
+        order = [(int(q.operation_update.operation_id.split("-")[1]), q.operation_update.action.value) for q in list(st._checkpoint_queue._q)]  # noqa: SLF001
+    case = {"parents": {str(k): v for k, v in parent.items()}, "threads": [[list(x) for x in t] for t in threads], "decisions": list(sim.decisions), "seed": seed}
+    ctx.case(json.dumps(case["threads"]) + str(seed) if any(i in under for i, _ in order) and (closer, "SUCCEED") in order else None)
+    ctx.count("orphan.concurrent")
+    if sim.hung or sim.limit_hit:
+        ctx.violate("C10.create_checkpoint_blocked", case, {"hung": sim.hung}, component, kind="schedule")
+        return
+    if (closer, "SUCCEED") in order:
+        k0 = order.index((closer, "SUCCEED"))
+        late = [x for x in order[k0 + 1:] if closer in anc(x[0])]
+        if late:
+            ctx.violate("C10.descendant_update_enqueued_after_completion", case, {"queue_order": order, "completed_context": closer, "after_it": late},
+                        component, kind="schedule")
+
+
+def concurrent_part(ctx, n, component="orphan.concurrent"):
+    """Several threads call the real create_checkpoint (is_sync=False, no consumer) under the deterministic scheduler;
+    the order in which the updates ENTER THE QUEUE is the order the backend will see: once a context's completion
+    record is in the queue, nothing from its descendants may follow it (validation and hand-over must be one step)."""
+    for it in range(n):
+        rng = ctx.rng
+        ids = list(range(1, rng.randint(4, 7)))
+        parent = {i: (rng.choice(ids[: i - 1]) if i > 1 and rng.random() < 0.9 else None) for i in ids}
+        ctxs = sorted({p for p in parent.values() if p is not None})
+        if not ctxs:
+            continue
+        closer = rng.choice(ctxs)
+
+        def anc(i):
+            out = []
+            while parent.get(i) is not None:
+                i = parent[i]
+                out.append(i)
+            return out
+        fresh = []
+        for j in range(rng.randint(0, 3)):
+            parent[100 + j] = rng.choice(ctxs)
+            fresh.append(100 + j)
+        under = [i for i in ids + fresh if closer in anc(i)]
+        threads = [[(closer, "SUCCEED")]]
+        pool = fresh[:]
+        for _ in range(rng.randint(1, 3)):
+            seq = []
+            for _ in range(rng.randint(1, 3)):
+                if pool and rng.random() < 0.4:
+                    seq.append((pool.pop(), "START"))
+                    continue
+                old = [x for x in under if x < 100]
+                i = rng.choice(old if old and rng.random() < 0.8 else ids)
+                if i != closer:
+                    seq.append((i, "SUCCEED"))
+            if seq:
+                threads.append(seq)
+        run_concurrent(ctx, parent, threads, rng.randrange(1 << 30), component=component)
+
+
 def run(ctx):
+    concurrent_part(ctx, ctx.scale(400, 8000))
     filter_part(ctx, ctx.scale(1500, 30000))
     comp_executor.run_prop(ctx, "C10", n_quick=150, n_thorough=4000)
     # the narrow window: a queued branch started by a freed worker while the batch's completion record is in flight
@@ -187,6 +289,10 @@ def replay(ctx, rec):
     case = rec["case"]
     if "blocks" in (case.get("scenario") or {}):
         comp_executor.replay(ctx, rec, "C10")
+        return
+    if "threads" in case:
+        run_concurrent(ctx, {int(k): v for k, v in case["parents"].items()}, [[tuple(x) for x in t] for t in case["threads"]], case.get("seed", 0),
+                       schedule=case.get("decisions"), component="orphan.concurrent.replay")
         return
     recorded = {i: (p, "CONTEXT") for p, i in case.get("recorded", [])}
     updates = [tuple(u) for u in case["updates"]]
